@@ -163,15 +163,11 @@ def handle : Handler := fun op a =>
         ("l0", jExcept jCells (specCounts bins o recs)),
         ("upper", Json.bool (!(anchors o recs).any Anchor.lower))]
   | "C05.hiclib" => some do
-      -- HDF5Aggregator: the model of the code as it is for every chunksize asked, and the specification
+      -- HDF5Aggregator: the model of the code for every chunksize asked, and the specification
       let bins ← getBins a "bins"
       let n ← getNat a "nchroms"
       let recs ← fld a "recs" >>= listOf hrecOf
       let css ← getNats a "chunksizes"
-      -- integer row labels of the bin-table frame as handed to cooler (absent / null: pandas' default 0 … n-1)
-      let labels : List Int := match fld a "labels" >>= listOf intOf with
-        | .ok l => l
-        | .error _ => rangeLabels bins
       let good := recs.all fun r => decide (Good bins n r)
       return Json.mkObj [
         ("valid", Json.bool (validSegmentationB bins)),
@@ -182,10 +178,9 @@ def handle : Handler := fun op a =>
         ("upper", Json.bool (recs.all fun r => !(anchorH r).lower)),
         ("outside", Json.bool (outside bins n recs)),
         ("unlisted", Json.bool (unlisted n recs)),
-        ("default_labels", Json.bool (labels == rangeLabels bins)),
         ("l0", jExcept jCells (hiclibSpec bins n recs)),
         ("runs", jList (fun cs =>
-            let l1 := hiclibChunksL bins labels n cs recs
+            let l1 := hiclibChunks bins n cs recs
             let flat : Except Err (List Cell) := match l1 with
               | .error e => .error e
               | .ok l => .ok (l.map (·.2)).flatten
